@@ -220,5 +220,80 @@ def _register():
 _register()
 
 
+def _mk_log_cond_refusal(kind, which):
+    def ob(w):
+        Dx = "Dy" if kind.startswith("identity") else "Dx"
+        h = SP.gen_cond_handle(w, kind, "c", "Rc", "Dy", Dx)
+        P = SP.mods()["pdf"]
+        if which == "joint":
+            g = w.block_gaussian("q", ["Rq"], ["Dy", Dx])
+            q = P.GaussianPDF(Sigma=g["S"], mu=g["mu"], Lambda=g["L"], ln_det_Sigma=g["ld"])
+            w.raises("documented-refusal", (NotImplementedError,), lambda: h.call("integrate_log_conditional", q))
+        else:
+            p_x, _ = SP.gen_pdf(w, "x", 1, Dx)
+            w.raises("documented-refusal", (NotImplementedError,), lambda: h.call("integrate_log_conditional_y", p_x))
+    return ob
+
+
+for _kind in ("full", "identity", "identity-diag"):
+    for _which in ("joint", "y"):
+        _m = "integrate_log_conditional" if _which == "joint" else "integrate_log_conditional_y"
+        REG.ob(f"{SP.COND_CLS[_kind]}.{_m}/batched-conditional/refusal",
+               sorts=["Rc", "Dy"] + (["Rq"] if _which == "joint" else []) + ([] if _kind.startswith("identity") else ["Dx"]),
+               funcs=[f"conditional.{SP.COND_CLS[_kind]}.{_m}"])(_mk_log_cond_refusal(_kind, _which))
+
+
+def _mk_feature_refusal(kind, which):
+    def ob(w):
+        A = SP.mods()["approximate_conditional"]
+        xp = w.xp
+        g = w.spd("c", ["Rc"], "Dy")
+        M = xp.concatenate([w.arr("Mx", "Rc", "Dy", "Dx"), w.arr("Mk", "Rc", "Dy", "Dk")], axis=2)
+        b = w.arr("bc", "Rc", "Dy")
+        if kind == "rbf":
+            obj = A.LRBFGaussianConditional(M=M, b=b, mu=w.arr("sk", "Dk", "Dx"), length_scale=w.pos("lk", "Dk", "Dx"),
+                                            Sigma=g["S"], Lambda=g["L"], ln_det_Sigma=g["ld"])
+        else:
+            W = xp.concatenate([w.arr("w0", "Dk")[:, None], w.arr("wk", "Dk", "Dx")], axis=1)
+            obj = A.LSEMGaussianConditional(M=M, b=b, W=W, Sigma=g["S"], Lambda=g["L"], ln_det_Sigma=g["ld"])
+        P = SP.mods()["pdf"]
+        p_x, _ = SP.gen_pdf(w, "x", 1, "Dx")
+        if which == "joint":
+            gq = SP.gen_factored_joint(w, "j", 1, "Dy", "Dx")
+            q = P.GaussianPDF(Sigma=gq["S"], mu=gq["mu"], Lambda=gq["L"], ln_det_Sigma=gq["ld"])
+            w.raises("documented-refusal", (NotImplementedError,), lambda: obj.integrate_log_conditional(q))
+        else:
+            w.raises("documented-refusal", (NotImplementedError,), lambda: obj.integrate_log_conditional_y(p_x))
+    return ob
+
+
+for _kind, _cls in (("rbf", "LRBFGaussianConditional"), ("lsem", "LSEMGaussianConditional")):
+    for _which in ("joint", "y"):
+        _m = "integrate_log_conditional" if _which == "joint" else "integrate_log_conditional_y"
+        REG.ob(f"{_cls}.{_m}/batched-conditional/refusal", sorts=["Rc", "Dy", "Dx", "Dk"],
+               funcs=[f"approximate_conditional.{_cls}.{_m}"])(_mk_feature_refusal(_kind, _which))
+
+
+def _mk_nn_refusal(which):
+    """NN-controlled conditional: more than one control row is a documented refusal for the expected log-likelihoods"""
+    def ob(w):
+        h = SP.gen_cond_handle(w, "nn", "c", "Ru", "Dy", "Dx")
+        P = SP.mods()["pdf"]
+        if which == "joint":
+            g = w.block_gaussian("q", [1], ["Dy", "Dx"])
+            q = P.GaussianPDF(Sigma=g["S"], mu=g["mu"], Lambda=g["L"], ln_det_Sigma=g["ld"])
+            w.raises("documented-refusal", (NotImplementedError,), lambda: h.call("integrate_log_conditional", q))
+        else:
+            p_x, _ = SP.gen_pdf(w, "x", 1, "Dx")
+            w.raises("documented-refusal", (NotImplementedError,), lambda: h.call("integrate_log_conditional_y", p_x))
+    return ob
+
+
+for _which in ("joint", "y"):
+    _m = "integrate_log_conditional" if _which == "joint" else "integrate_log_conditional_y"
+    REG.ob(f"NNControlGaussianConditional.{_m}/batched-control/refusal", sorts=["Ru", "Dy", "Dx", "Du"],
+           funcs=[f"conditional.NNControlGaussianConditional.{_m}"])(_mk_nn_refusal(_which))
+
+
 from . import condctor as _cc  # noqa: E402
 REG.include(_cc.REG, prefix="ctor")
